@@ -1221,6 +1221,108 @@ class Run:
             self.memo[key] = r
         return r
 
+    # ---- work semantics: how many production entries nom performs (no memoisation, failed alternatives counted)
+
+    WB = 40
+
+    def _wsum(self, terms):
+        import z3
+        tot = 0
+        sym_terms = []
+        for t in terms:
+            if isinstance(t, int):
+                tot += t
+            else:
+                sym_terms.append(t)
+        if not sym_terms:
+            return tot
+        acc = sym_terms[0]
+        for t in sym_terms[1:]:
+            acc = acc + t
+        if tot:
+            acc = acc + z3.BitVecVal(tot, self.WB)
+        return acc
+
+    def _wif(self, cond, w):
+        import z3
+        if cond is True:
+            return w
+        if cond is False or (isinstance(w, int) and w == 0):
+            return 0
+        if isinstance(w, int):
+            w = z3.BitVecVal(w, self.WB)
+        return z3.If(cond, w, z3.BitVecVal(0, self.WB))
+
+    def work(self, node, i):
+        key = ("W", node.arg, i) if node.kind == "ref" else ("W", node.id, i)
+        r = self.memo.get(key)
+        if r is not None:
+            return r
+        k = node.kind
+        if k == "ref":
+            r = self._wsum([1, self.work(self.g.body_of(node), i)])
+        elif k in ("tag", "tag_nc", "class0", "class1", "one", "eof"):
+            r = 0
+        elif k in ("map", "recognize", "opt", "take_until", "take_except", "verify", "peek", "not", "all_consuming"):
+            r = self.work(node.kids[0], i)
+        elif k == "seq":
+            terms = []
+            cur = {i: True}
+            for kid in node.kids:
+                nxt = {}
+                for j, cj in cur.items():
+                    terms.append(self._wif(cj, self.work(kid, j)))
+                    for e, ce in self.ends(kid, j).items():
+                        v = And(cj, ce)
+                        if v is not False:
+                            nxt[e] = Or(nxt.get(e, False), v)
+                cur = nxt
+            r = self._wsum(terms)
+        elif k == "alt":
+            terms = []
+            none_before = True
+            for kid in node.kids:
+                terms.append(self._wif(none_before, self.work(kid, i)))
+                none_before = And(none_before, Not(self.ends(kid, i).ok()))
+                if none_before is False:
+                    break
+            r = self._wsum(terms)
+        elif k in ("many0", "many1"):
+            kid = node.kids[0]
+            terms = []
+            heads = {i: True}
+            for j in range(i, self.L + 1):
+                h = heads.pop(j, False)
+                if h is False:
+                    continue
+                terms.append(self._wif(h, self.work(kid, j)))
+                for e, ce in self.ends(kid, j).items():
+                    if e > j:
+                        heads[e] = Or(heads.get(e, False), And(h, ce))
+            r = self._wsum(terms)
+        elif k in ("separated_list0", "separated_list1"):
+            sep, f = node.kids
+            terms = [self.work(f, i)]
+            heads = {}
+            for e, ce in self.ends(f, i).items():
+                heads[e] = Or(heads.get(e, False), ce)
+            for j in range(i, self.L + 1):
+                h = heads.pop(j, False)
+                if h is False:
+                    continue
+                terms.append(self._wif(h, self.work(sep, j)))
+                for e, cs in self.ends(sep, j).items():
+                    if e == j:
+                        continue
+                    terms.append(self._wif(And(h, cs), self.work(f, e)))
+                    for m, cf in self.ends(f, e).items():
+                        heads[m] = Or(heads.get(m, False), And(h, cs, cf))
+            r = self._wsum(terms)
+        else:
+            raise Unsupported("work semantics of %s" % k)
+        self.memo[key] = r
+        return r
+
     # convenience
 
     def accepts_all(self, node, i=0):
